@@ -462,5 +462,7 @@ def transform_sub_fixtures(
           " transformation."
       )
 
+  # Variables created for shared nodes must not shadow the sub-fixture functions.
+  existing_names.update(sub_fixtures)
   namer = make_namer(namespace_lib.Namespace(existing_names))
   _transform_sub_fixtures(task, sub_fixtures, namer)
